@@ -66,3 +66,47 @@ fn c14_attribute_locations_are_chunk_offset_plus_outline() {
     kani::cover!(base > 0 && a0.name.start > 0 && a1.value.end > a1.value.start);
     core::mem::forget(buffer);
 }
+
+/// Model of `encoding_rs::Encoding::encode` for the UTF-8 output encoding (documented: the input is returned
+/// borrowed, nothing is replaced). Only used with `encoding_rs::UTF_8`.
+fn model_encode_utf8<'a>(e: &'static encoding_rs::Encoding, s: &'a str) -> (std::borrow::Cow<'a, [u8]>, &'static encoding_rs::Encoding, bool) {
+    assert!(e == encoding_rs::UTF_8);
+    (std::borrow::Cow::Borrowed(s.as_bytes()), e, false)
+}
+
+/// `remove_attribute` on a start tag with two parsed attributes whose one-byte names are arbitrary (so both,
+/// one or none may spell `a` in either case): afterwards no attribute of that name is left (a duplicate must
+/// not resurface), the others are kept in source order with their bytes, the return value says whether
+/// anything was removed, and the read API (`has_attribute`) reflects the edit.
+// @verif props=C16,C15 fns=Attributes::remove_attribute,Attributes::has_attribute,Attribute::name_from_string
+#[kani::proof]
+#[kani::stub(encoding_rs::Encoding::encode, model_encode_utf8)]
+#[kani::unwind(6)]
+fn c16_remove_attribute_removes_every_duplicate() {
+    let input: [u8; 4] = kani::any();
+    let bytes = Bytes::new(&input);
+    let a0 = AttributeOutline { name: Range { start: 0, end: 1 }, value: Range { start: 1, end: 2 }, raw_range: Range { start: 0, end: 2 } };
+    let a1 = AttributeOutline { name: Range { start: 2, end: 3 }, value: Range { start: 3, end: 4 }, raw_range: Range { start: 2, end: 4 } };
+    let buffer: AttributeBuffer = vec![a0, a1];
+    let mut attrs = Attributes::new(&bytes, &buffer, encoding_rs::UTF_8, 0);
+    let m0 = input[0] == b'a' || input[0] == b'A';
+    let m1 = input[2] == b'a' || input[2] == b'A';
+    let removed = attrs.remove_attribute("A");
+    assert!(removed == (m0 || m1), "[C16] remove_attribute reports whether the attribute existed");
+    assert!(!attrs.has_attribute("a"), "[C16] a removed attribute is gone, duplicates included");
+    let items = attrs.to_slice();
+    let want = 2 - (m0 as usize) - (m1 as usize);
+    assert!(items.len() == want, "[C16] exactly the attributes of that name are removed");
+    if !m0 {
+        assert!(items[0].name.len() == 1 && items[0].name[0] == input[0] && items[0].value[0] == input[1], "[C16] other attributes keep their bytes and order");
+    }
+    if !m1 {
+        let k = want - 1;
+        assert!(items[k].name.len() == 1 && items[k].name[0] == input[2] && items[k].value[0] == input[3], "[C16] other attributes keep their bytes and order");
+    }
+    kani::cover!(m0 && m1);
+    kani::cover!(!m0 && m1);
+    kani::cover!(!m0 && !m1);
+    core::mem::forget(attrs);
+    core::mem::forget(buffer);
+}
